@@ -204,11 +204,20 @@ def main(argv=None):
     for name in cfg.get("counters_required", []):
         if counters.get(name, 0) <= 0:
             inconclusive.append(f"monitor counter zero: {name}")
+    for name in cfg.get("counters_inconclusive", []):
+        if counters.get(name, 0) > 0:
+            inconclusive.append(f"{name}={counters.get(name)} (statistical grey band / undecided cells)")
+    if counters.get("harness_errors", 0) > 0:
+        inconclusive.append(f"harness_errors={counters['harness_errors']} (a bug in the checking machinery, see notes)")
     if evaluations < cfg.get("min_evaluations", 1) or len(fps) < 2:
         inconclusive.append(
             f"too few observations (evaluations={evaluations}, distinct={len(fps)})"
         )
 
+    if a.replay:
+        # a replay re-runs one witness: coverage thresholds do not apply, evidence is not rewritten
+        inconclusive = [x for x in inconclusive if x.startswith("shard")]
+        evid_path = os.path.join(EVID, "replays", f"{prop}.last_replay.json")
     level = cfg.get("level", "exploration")
     coverage = {
         "evaluations": int(evaluations),
